@@ -94,6 +94,12 @@ func c26bV2(verCmd, famProto byte, payload []byte) []byte {
 }
 
 func c26bAddr(t *rapid.T, v6 bool, label string) netip.Addr {
+	if v6 && rapid.IntRange(0, 4).Draw(t, label+"-mapped") == 0 {
+		var m [16]byte
+		m[10], m[11] = 0xff, 0xff
+		copy(m[12:], rapid.SliceOfN(rapid.Byte(), 4, 4).Draw(t, label+"-v4"))
+		return netip.AddrFrom16(m) // IPv4-mapped IPv6
+	}
 	if !v6 {
 		a, _ := netip.AddrFromSlice(rapid.SliceOfN(rapid.Byte(), 4, 4).Draw(t, label))
 		return a
@@ -115,6 +121,10 @@ func c26bTLVs(t *rapid.T) []byte {
 		return nil
 	}
 	l := rapid.IntRange(0, 40).Draw(t, "tlv-len")
+	if rapid.IntRange(0, 5).Draw(t, "tlv-big?") == 2 {
+		// padding that pushes the header around / beyond bufio's 4096-byte buffer, up to the limit
+		l = rapid.SampledFrom([]int{4040, 4064, 4065, 4066, 8200, 30000, 65400}).Draw(t, "tlv-big-len")
+	}
 	return append([]byte{0x04, byte(l >> 8), byte(l)}, bytes.Repeat([]byte{0xee}, l)...)
 }
 
